@@ -80,24 +80,49 @@ def case_key(case):
 PENDING = []          # second-pass deviations waiting for the model's verdict on their case
 
 
-def flush_pending(ctx, disagree_ids, evaluated_ids, prefix="second-pass:"):
-    """second-pass deviations: known finding iff the model reproduces the implementation on that case"""
+def line_below_granularity(case, out, text):
+    """is the line named in an oracle message an instruction with a micro-op below the balancing granularity?"""
+    import re
+    m = re.match(r"line (\d+) ", text)
+    if not m:
+        return False
+    ln = int(m.group(1))
+    return pressure.below_granularity(out[3][ln] if not isinstance(out[3][ln], dict) else list(out[3][ln].values())[0])
+
+
+def flush_pending(ctx, disagree_ids, evaluated_ids):
+    """deviations of a known family (second CLI pass; share below the balancing granularity): known finding iff the bit-exact
+    model reproduces the implementation on that very case"""
     keep = []
-    for cid, kind, text, case in PENDING:
+    for cid, kind, text, case, prefix in PENDING:
         if cid in disagree_ids:
-            ctx.violation("second-pass-not-explained-by-model:" + kind, text + " -- and the bit-exact model of the balancer does NOT "
-                          "reproduce this output, so it is not the known second-pass defect", {"case": case, "kind": kind})
+            ctx.violation(prefix.rstrip(":") + "-not-explained-by-model:" + kind, text + " -- and the bit-exact model of the balancer does NOT "
+                          "reproduce this output, so it is not the known defect", {"case": case, "kind": kind})
         elif cid in evaluated_ids:
             ctx.violation(prefix + kind, text, {"case": case, "kind": kind})
         else:
-            keep.append((cid, kind, text, case))
+            keep.append((cid, kind, text, case, prefix))
     PENDING[:] = keep
+
+
+GRAN = "share-below-granularity:"
 
 
 def judge(ctx, case, out, prop="C01"):
     """Independent oracle on the implementation's output."""
     mode = case["mode"]
     if out[0] != "ok":
+        if mode == "uniform" or case.get("real") or out[1] in ("EKey",):
+            return
+        # the balancer raised.  Known only for instructions with a micro-op whose uniform share is within half a balancing
+        # step per micro-op (no shipped model has one) or in the second CLI pass -- and only if the bit-exact model raises
+        # the same error on this very case; anything else is reported
+        if pressure.case_below_granularity(case):
+            PENDING.append((id(case), "raises", "synthetic kernel, mode %s: the balancer raises %s" % (mode, out[2][:120]), case, GRAN))
+        elif mode == "twice":
+            PENDING.append((id(case), "raises", "synthetic kernel, mode %s: the balancer raises %s" % (mode, out[2][:120]), case, "second-pass:"))
+        else:
+            ctx.violation(mode + ":raises", "synthetic kernel, mode %s: the balancer raises %s" % (mode, out[2][:200]), {"case": case, "kind": "raises"})
         return
     bad = pressure.feasibility(case, out)
     if case.get("real") and case["real"][0] == "zen1":
@@ -106,10 +131,15 @@ def judge(ctx, case, out, prop="C01"):
         if kind == "crash":
             continue
         where = "real kernel %s on %s" % (case["real"][1].replace("\n", " ; ")[:400], case["real"][0]) if case.get("real") else "synthetic kernel"
+        if mode != "uniform" and not case.get("real") and kind in ("hall", "total", "negative") and line_below_granularity(case, out, text):
+            # a micro-op whose uniform share is within half a balancing step per micro-op of its instruction: the balancing
+            # granularity exceeds the share (outside the hypothesis of the one-pass theorem; no shipped model has such a form)
+            PENDING.append((id(case), kind, "%s, mode %s: %s" % (where, mode, text), case, GRAN))
+            continue
         if mode == "twice":
             # the known second-pass defect is exactly what the bit-exact model of the balancer exhibits; the verdict is given
             # once the model has been evaluated on this case (run_cases): only a deviation the model REPRODUCES is that finding
-            PENDING.append((id(case), kind, "%s, mode %s: %s" % (where, mode, text), case))
+            PENDING.append((id(case), kind, "%s, mode %s: %s" % (where, mode, text), case, "second-pass:"))
             continue
         ctx.violation(mode + ":" + kind, "%s, mode %s: %s" % (where, mode, text), {"case": case, "kind": kind})
 
@@ -148,11 +178,11 @@ def run_cases(ctx, cases_outs, label, shard_size=20):
     return nbad
 
 
-def synthetic(ctx, n):
+def synthetic(ctx, n, tiny=False):
     cases_outs = []
     hist = {}
     for i in range(n):
-        case = pressure.gen_case(ctx.rng)
+        case = pressure.gen_case(ctx.rng, tiny=tiny, mode=ctx.rng.choice(["once", "once", "twice", "uniform"]) if tiny else None)
         out = pressure.run_impl(case)
         cases_outs.append((case, out))
         ctx.count()
@@ -163,7 +193,10 @@ def synthetic(ctx, n):
         if i < 2:
             ctx.sample({"case": case, "impl": out[:3]})
         judge(ctx, case, out)
-    ctx.coverage["synthetic_outcomes"] = hist
+    ctx.coverage["synthetic_outcomes" + ("_tiny" if tiny else "")] = hist
+    if tiny:
+        ctx.coverage["tiny_cases_below_granularity"] = sum(1 for c, _ in cases_outs if pressure.case_below_granularity(c))
+        return cases_outs
     ctx.coverage["synthetic_sizes"] = {"ports": _hist(len(c["ports"]) for c, _ in cases_outs),
                                        "kernel_len": _hist(len(c["kernel"]) for c, _ in cases_outs)}
     return cases_outs
@@ -286,6 +319,8 @@ def run(ctx):
     run_cases(ctx, fam2, "family2")
     syn = synthetic(ctx, ctx.n(320, 6400))
     run_cases(ctx, syn, "synthetic")
+    tiny = synthetic(ctx, ctx.n(160, 3200), tiny=True)   # shares of the order of the balancing step (exact zeros, shares rounding to 0.00)
+    run_cases(ctx, tiny, "tiny")
     re = real(ctx, ctx.n(10, 400))
     run_cases(ctx, re, "real", shard_size=ctx.n(1, 4))
 
